@@ -155,6 +155,24 @@ def handleBindS (s2s remote reqid reqres cb a cbjid rto rfrom : String) : Option
     | some q => s!"{hx q.to} {hx q.src}"
   pure s!"{head} {r.err.getD "nil"} {showBool r.ready} {args} {tail}"
 
+/-- several receiving sessions on one `BindCustom` value: each is the sequential model on
+its own request (`id<i>`, its own remote address, its own requested resource) -/
+def handleConcB (items : List String) : Option String := do
+  let rs ← mapM? (fun (x : Nat × String) => match x.2.splitOn "/" with
+    | [remote, res, j] => do
+      let remote ← txt remote; let res ← txt res; let j ← txt j
+      let r := Bind.server remote s!"id{x.1}" (some res) .absent (.valid remote) (.address j)
+      match r.reply, r.cbArgs with
+      | some q, some (a, b) =>
+        let jj := match q.assigned with
+          | some (.jid j) => hx j
+          | some .random => "RND"
+          | none => "-"
+        some s!"{q.type} {hx q.id} {jj} {r.err.getD "nil"} {showBool r.ready} {hx a}/{hx b} {hx q.to}"
+      | _, _ => none
+    | _ => none) ((List.range items.length).zip items)
+  pure (" ; ".intercalate rs)
+
 def handle (args : List String) : Option String :=
   match args with
   | ["hdr", ws, xmlns, to, src, id, lang, emitted] => handleHdr ws xmlns to src id lang emitted
@@ -162,6 +180,7 @@ def handle (args : List String) : Option String :=
   | "nege" :: role :: ws :: s2s :: loc :: orig :: jids :: tee :: budget :: cancel :: hdrs =>
     handleNeg role ws s2s loc orig jids (some (tee, budget, cancel)) hdrs
   | ["tag", bytes] => handleTag bytes
+  | "concb" :: _sched :: items => handleConcB items
   | ["bindc", locl, reply, a, b, ajid, bjid] => handleBindC locl reply a b ajid bjid
   | ["binds", s2s, remote, reqid, reqres, cb, a, cbjid, rto, rfrom] =>
     handleBindS s2s remote reqid reqres cb a cbjid rto rfrom
